@@ -40,11 +40,36 @@ func (r *Runner) filesWith(a string, keep func(root string) bool) []string {
 // a chunk stored by local upload, and no run changes a pin count.
 type C12Oracle struct {
 	before Snap
+	// per root, before the run: was every stored chunk cached under the root's context pinned through that context?
+	fully map[string]bool
 }
 
 func (o *C12Oracle) Before(r *Runner, kind string, op Op) {
-	if kind == "gc" {
-		o.before = r.Snap()
+	if kind != "gc" {
+		return
+	}
+	o.before = r.Snap()
+	b := o.before
+	o.fully = map[string]bool{}
+	entries := map[string]int{}
+	for _, root := range b.GC {
+		entries[root]++
+	}
+	for root, cached := range r.CachedUnder {
+		n := 0
+		// only for a root whose gc bookkeeping saw nothing but request puts and pins under its context
+		// (no unpin / removal under it, one gc entry): then "all pinned" means "no longer a candidate"
+		ok := !r.Inflated[root] && entries[root] <= 1
+		for c := range cached {
+			if !b.Data[c] {
+				continue
+			}
+			n++
+			if b.Pin[c] == 0 || r.CtxPins[root][c] <= 0 {
+				ok = false
+			}
+		}
+		o.fully[root] = ok && n > 0
 	}
 }
 
@@ -65,21 +90,7 @@ func (o *C12Oracle) After(r *Runner, kind string, op Op, started bool) {
 	}
 	// an evicted file every cached chunk of which was pinned through the file's own context: each such pin
 	// takes the chunk out of the file's gc counter, so the file should not have been a candidate at all
-	fullyPinned := map[string]bool{}
-	for root := range evicted {
-		n := 0
-		ok := !r.Inflated[root]
-		for c := range r.CachedUnder[root] {
-			if !b.Data[c] {
-				continue
-			}
-			n++
-			if b.Pin[c] == 0 || r.CtxPins[root][c] <= 0 {
-				ok = false
-			}
-		}
-		fullyPinned[root] = ok && n > 0
-	}
+	fullyPinned := o.fully
 	class := func(addr string) string {
 		for root := range evicted {
 			if !fullyPinned[root] {
